@@ -220,3 +220,72 @@ def no_shared_mutable_defaults(ctx, rule, classes=None):
                'and what one call stores is seen by all others', key=f"shared mutable default {fi.qualname}.{pname}")
     ctx.ob(rule, anchor, anchor.node.lineno, 'no mutable default argument is stored or changed', not bad,
            fact=f"{n} mutable default(s) examined", why='see the reports', key='mutable defaults', nontrivial=False)
+
+
+def late_binding_closures(ctx, rule, classes=None):
+    """A lambda or nested function made inside a loop (or a comprehension) sees the loop variable as it is when the
+    closure is *called*, not as it was when it was made.  If the closure is kept (put into a list, a dictionary, an
+    attribute) and called after the loop, every copy uses the last value.  Binding the value at creation
+    (`lambda x, k=k: ..`, `functools.partial`) is the accepted idiom; a closure handed straight to a call that uses it
+    at once (`apply`, `vectorize(..)(..)`, `map`, `sorted(key=..)`) is not affected."""
+    model = ctx.model
+    n = 0
+    bad = []
+    for fi in model.funcs.values():
+        if fi.mod.rel not in ('pyplate/pyplate.py', 'pyplate/slicer.py') or fi.parent is not None:
+            continue
+        if classes is not None and (fi.cls is None or fi.cls.name not in classes):
+            continue
+        loops = [x for x in ast.walk(fi.node) if isinstance(x, (ast.For, ast.ListComp, ast.DictComp, ast.SetComp, ast.GeneratorExp))]
+        for lp in loops:
+            if isinstance(lp, ast.For):
+                lvars = {x.id for x in ast.walk(lp.target) if isinstance(x, ast.Name)}
+                region = lp.body
+            else:
+                lvars = {x.id for g in lp.generators for x in ast.walk(g.target) if isinstance(x, ast.Name)}
+                region = [lp.elt] if not isinstance(lp, ast.DictComp) else [lp.key, lp.value]
+            for r in region:
+                for c in ast.walk(r):
+                    if not isinstance(c, (ast.Lambda, ast.FunctionDef)):
+                        continue
+                    params = {a.arg for a in c.args.args + c.args.kwonlyargs} | \
+                        ({c.args.vararg.arg} if c.args.vararg else set()) | ({c.args.kwarg.arg} if c.args.kwarg else set())
+                    body = [c.body] if isinstance(c, ast.Lambda) else c.body
+                    local = {x.id for b in body for x in ast.walk(b) if isinstance(x, ast.Name) and isinstance(x.ctx, ast.Store)}
+                    free = {x.id for b in body for x in ast.walk(b) if isinstance(x, ast.Name) and isinstance(x.ctx, ast.Load)} - params - local
+                    captured = sorted(free & lvars)
+                    if not captured:
+                        continue
+                    n += 1
+                    par = getattr(c, 'parent', None)
+                    kept = None
+                    if isinstance(c, ast.Lambda):
+                        if not isinstance(lp, ast.For) and (c is getattr(lp, 'elt', None) or c is getattr(lp, 'value', None)):
+                            kept = 'element of the comprehension'
+                        elif isinstance(par, ast.Call) and isinstance(par.func, ast.Attribute) and par.func.attr in ('append', 'add', 'insert', 'setdefault', 'update') \
+                                and c in par.args:
+                            kept = f"kept with .{par.func.attr}()"
+                        elif isinstance(par, (ast.Assign, ast.AnnAssign)) and getattr(par, 'value', None) is c:
+                            tg = par.targets if isinstance(par, ast.Assign) else [par.target]
+                            if any(isinstance(t, (ast.Subscript, ast.Attribute)) for t in tg):
+                                kept = 'stored in a container / attribute'
+                        elif isinstance(par, (ast.Dict, ast.List, ast.Tuple, ast.Set)):
+                            kept = 'element of a display that outlives the iteration'
+                    else:
+                        # a nested def: kept if its name is appended / stored (not merely called or passed on at once)
+                        for x in ast.walk(lp if isinstance(lp, ast.For) else r):
+                            if isinstance(x, ast.Call) and isinstance(x.func, ast.Attribute) and x.func.attr in ('append', 'add', 'insert') and \
+                                    any(isinstance(a, ast.Name) and a.id == c.name for a in x.args):
+                                kept = f"kept with .{x.func.attr}()"
+                            if isinstance(x, ast.Assign) and isinstance(x.value, ast.Name) and x.value.id == c.name and \
+                                    any(isinstance(t, (ast.Subscript, ast.Attribute)) for t in x.targets):
+                                kept = 'stored in a container / attribute'
+                    if kept:
+                        bad.append((fi, c.lineno, captured, kept))
+    anchor = model.func('Container._transfer')
+    for fi, line, captured, kept in bad:
+        ctx.ob(rule, fi, line, f"{fi.qualname}: a closure made in a loop binds {captured} when it is made", False,
+               fact=f"{kept}; free loop variable(s) {captured}", why='the closure is called after the loop has moved on: every '
+               'kept copy sees the last value of the loop variable', key=f"late-binding closure in {fi.qualname}")
+    ctx.ob(rule, anchor, anchor.node.lineno, 'no closure kept beyond its loop iteration captures the loop variable late', not bad,
+           fact=f"{n} closure(s) in loops that read the loop variable", why='see the reports', key='late binding', nontrivial=False)
